@@ -107,18 +107,28 @@ Theorem nil_map_write_panics : forall (T : mtype) fuel m its k v,
 Proof. exact nil_write. Qed.
 Print Assumptions nil_map_write_panics.
 
-(* The finite-map property is FALSE of the faithful model (and of the code: the harness
-   replays both witnesses on the real map.go).
-   1. clear() keeps stale overflow links (memclr* are empty in llgo): there is a history on
-      a non-nil map whose API-level results differ from the specification (a key stored
-      after the clear is not found after the next growth). *)
-Theorem hmap_refines_fmap_refuted : exists x : config * list op,
-  c_nil (fst x) = false /\ run_history_obs x <> spec_run [] (snd x).
+(* The finite-map property was FALSE of the code as it stood (and of its faithful model):
+   1. with the empty memclr stubs of the original stubs.go (model flag c_memclr = false) clear()
+      keeps stale overflow links: there is a history on a non-nil map whose API-level results
+      differ from the specification (a key stored after the clear is not found after the next
+      growth).  Repaired by props/C06/fixes/apply/01: the harness keeps replaying the witness on
+      the real code as a regression guard. *)
+Theorem hmap_refines_fmap_without_memclr_refuted : exists x : config * list op,
+  c_nil (fst x) = false /\ c_memclr (fst x) = false /\ run_history_obs x <> spec_run [] (snd x).
 Proof. exact clear_refuted. Qed.
-Print Assumptions hmap_refines_fmap_refuted.
+Print Assumptions hmap_refines_fmap_without_memclr_refuted.
 
-(* 2. a range loop that still walks a bucket array older than h.oldbuckets yields
-      NaN-keyed entries that clear() removed *)
+(* with memclr implemented (c_memclr = true, the model of the code that exists) the same
+   history gives exactly the results of the specification.  Partial: one history, by
+   evaluation; the general statement for the heap-level model is not proved *)
+Theorem clear_witness_refines_fmap_partial :
+  c_memclr (fst (witness_clear true)) = true /\
+  run_history_obs (witness_clear true) = spec_run [] (snd (witness_clear true)).
+Proof. split; [reflexivity|exact clear_fixed]. Qed.
+Print Assumptions clear_witness_refines_fmap_partial.
+
+(* 2. (still true of the code) a range loop that still walks a bucket array older than
+      h.oldbuckets yields NaN-keyed entries that clear() removed *)
 Theorem iter_yields_only_present_refuted : exists x : config * list op,
   yields_present [] (snd x) (run_history x) = false.
 Proof. exact nan_clear_refuted. Qed.
